@@ -184,19 +184,33 @@ func registerCoseKinds(c *core.Ctx) {
 		if alg < 0 {
 			z = fmt.Sprintf("-%x", -alg)
 		}
-		line := "cose.mac0 raw z:" + z + " b:" + p["key"] + " (m) (r b:" + p["payload"] + ") (b b:" + p["aad"] + ")"
+		// further protected headers (they must be covered by the tag): a key id (label 4) or a content type (label 3)
+		protIn, protOut := "(m)", ""
+		var m cose.Mac0[cbor.RawBytes, []byte]
+		switch p["prot"] {
+		case "kid":
+			kid := []byte(p["protval"])
+			protIn = fmt.Sprintf("(m ((i z:4) (b b:%x)))", kid)
+			protOut = fmt.Sprintf(" ((i z:4) (b b:%x))", kid)
+			m.Protected = cose.HeaderMap{cose.Label{Int64: 4}: kid}
+		case "ct":
+			ct, _ := strconv.ParseInt(p["protval"], 10, 64)
+			protIn = fmt.Sprintf("(m ((i z:3) (i z:%x)))", ct)
+			protOut = fmt.Sprintf(" ((i z:3) (i z:%x))", ct)
+			m.Protected = cose.HeaderMap{cose.Label{Int64: 3}: ct}
+		}
+		line := "cose.mac0 raw z:" + z + " b:" + p["key"] + " " + protIn + " (r b:" + p["payload"] + ") (b b:" + p["aad"] + ")"
 		if p["lineonly"] != "" {
 			return line, ""
 		}
 		key, _ := hex.DecodeString(p["key"])
 		pl, _ := hex.DecodeString(p["payload"])
 		aad, _ := hex.DecodeString(p["aad"])
-		var m cose.Mac0[cbor.RawBytes, []byte]
 		rb := cbor.RawBytes(pl)
 		if err := m.Digest(cose.MacAlgorithm(alg), key, &rb, aad); err != nil {
 			return line, "err"
 		}
-		return line, fmt.Sprintf("ok (m ((i z:1) (i z:%s))) b:%x", z, m.Value)
+		return line, fmt.Sprintf("ok (m ((i z:1) (i z:%s))%s) b:%x", z, protOut, m.Value)
 	}})
 }
 
@@ -336,6 +350,12 @@ func RunC13(c *core.Ctx) {
 						continue
 					}
 					check(h, k, h.obj, det, pl, aad, "honest")
+					if !det {
+						// the object embeds its payload and the verifier also supplies the payload it expects: the supplied one counts
+						other := append(append([]byte{}, pl...), 0x00)
+						check(h, k, h.obj, true, other, aad, "embedded-but-other-payload-supplied")
+						check(h, k, h.obj, true, pl, aad, "embedded-and-same-payload-supplied")
+					}
 					if len(pl) > 1000 && c.Quick() {
 						continue
 					}
@@ -451,6 +471,18 @@ func RunC13(c *core.Ctx) {
 					o := c.Do("cose.mac0", p, "mac0")
 					if strings.HasPrefix(o.Impl, "panic") {
 						c.Fail("panic@cose.Mac0.Digest", core.PanicText, "cose.mac0", p, o)
+					}
+					// the tag must depend on every protected header: two values of a further header give two tags
+					if ksz == 16 || ksz == 32 {
+						for _, pv := range [][3]string{{"kid", "key-1", "key-2"}, {"ct", "60", "61"}} {
+							pa := core.Params{"alg": p["alg"], "key": p["key"], "payload": p["payload"], "aad": p["aad"], "prot": pv[0], "protval": pv[1]}
+							pb := core.Params{"alg": p["alg"], "key": p["key"], "payload": p["payload"], "aad": p["aad"], "prot": pv[0], "protval": pv[2]}
+							oa, ob := c.Do("cose.mac0", pa, "mac0-protected-"+pv[0]), c.Do("cose.mac0", pb, "mac0-protected-"+pv[0])
+							ta, tb := oa.Impl[strings.LastIndex(oa.Impl, " ")+1:], ob.Impl[strings.LastIndex(ob.Impl, " ")+1:]
+							if strings.HasPrefix(oa.Impl, "ok") && strings.HasPrefix(ob.Impl, "ok") && ta == tb {
+								c.Fail("mac-ignores-protected-header:"+pv[0], "two different values of a protected header give the same tag "+ta, "cose.mac0", pb, ob)
+							}
+						}
 					}
 				}
 			}
